@@ -82,7 +82,10 @@ def spell_float(x, rng, noncanon):
         t = "%.*f" % (rng.choice([18, 19, 20, 22]), x)          # plain notation with many decimals (e.g. '%.20f' output)
         if float(t) == x:
             return t
-    return repr(float(x))
+    t = repr(float(x))
+    if noncanon and rng.random() < 0.3 and (t.startswith("0.") or t.startswith("-0.")) and "e" not in t and x != 0:
+        return t.replace("0.", ".", 1)          # '.5', '-.25': no digit before the decimal point
+    return t
 
 
 class Format:
@@ -446,11 +449,11 @@ class Vcf(Format):
                 val = [uint(rng, prof) for _ in range(rng.randint(1, 3))]
                 txt = ",".join(map(str, val))
             elif typ == "Float" and num == "1":
-                val = round(rng.uniform(0, 100), rng.randint(0, 3))
-                txt = repr(val)
+                val = round(rng.uniform(0, 100) if rng.random() < 0.6 else rng.uniform(0, 1), rng.randint(0, 3))
+                txt = spell_float(val, rng, (style or {}).get("noncanon"))          # '.5', '5', '5.00' are the same Float
             elif typ == "Float":
                 val = [round(rng.uniform(0, 1), rng.randint(1, 4)) for _ in range(n_alt)]
-                txt = ",".join(repr(x) for x in val)
+                txt = ",".join(spell_float(x, rng, (style or {}).get("noncanon")) for x in val)
             else:
                 val = ident(rng, prof)
                 txt = val
